@@ -14,7 +14,7 @@ from ..graphsim import RefGraph
 
 PROP = 'C09'
 TIERS = {
-    'quick': {'runs': 12000, 'chunk': 100, 'wall_cap': 80, 'min_budget': 30},
+    'quick': {'runs': 60000, 'chunk': 100, 'wall_cap': 80, 'min_budget': 30},
     'thorough': {'runs': 1500000, 'chunk': 500, 'wall_cap': 850, 'min_budget': 60},
 }
 RULE = ('case = history of 1-60 (thorough: up to 150) public edit operations with integer selectors resolved against the reference model; well-formed use: no self-loops, no cycles, '
